@@ -11,14 +11,25 @@
 (* (what Deadline() reports; 0 = zero time).                                  *)
 EXTENDS Integers
 
-VARIABLES now,       \* current time (ticks)
-          lastSet,   \* time given to the most recent Set, 0 = zero time / never set
-          armed,     \* the runtime timer is armed (not yet dispatched)
-          armedAt,   \* its expiry
-          infl,      \* number of dispatched callbacks that have not run yet
-          freshIn,   \* one of them was dispatched after the latest Set
-          closed,    \* the current Done channel is closed
-          chan       \* number of times the Done channel has been replaced
+\* (the @type comments are for Apalache: DeadlineInd.tla proves the C09 invariants inductive without
+\* a bound on time, on the number of Set calls or on the callbacks in flight; TLC ignores them)
+VARIABLES
+    \* @type: Int;
+    now,       \* current time (ticks)
+    \* @type: Int;
+    lastSet,   \* time given to the most recent Set, 0 = zero time / never set
+    \* @type: Bool;
+    armed,     \* the runtime timer is armed (not yet dispatched)
+    \* @type: Int;
+    armedAt,   \* its expiry
+    \* @type: Int;
+    infl,      \* number of dispatched callbacks that have not run yet
+    \* @type: Bool;
+    freshIn,   \* one of them was dispatched after the latest Set
+    \* @type: Bool;
+    closed,    \* the current Done channel is closed
+    \* @type: Int;
+    chan       \* number of times the Done channel has been replaced
 dvars == <<now, lastSet, armed, armedAt, infl, freshIn, closed, chan>>
 
 DInit == /\ now = 1 /\ lastSet = 0 /\ armed = FALSE /\ armedAt = 0
